@@ -85,6 +85,7 @@ struct ThrEngine : Engine {
 		DocOpts dopt; dopt.images = true;
 		dopt.blocks_max = 8;
 		if (w.chance(1, 5)) dopt.emails = false;
+		else if (w.chance(1, 3)) dopt.email_heavy = true;
 		int ndocs = (int)w.range(1, 4);
 		Json docs = Json::array();
 		for (int i = 0; i < ndocs; i++) {
